@@ -139,7 +139,7 @@ fn cfg_for(property: &str, tier: Tier) -> GenCfg {
         "C16" => GenCfg {
             starts: vec![(StartKind::Initial, 3), (StartKind::Special, 2), (StartKind::Endgame, 3), (StartKind::Random, 2)],
             lrus: vec![64, 4096],
-            policies: vec![Policy::Frozen, Policy::Frozen, Policy::Quiet, Policy::Quiet, Policy::Uniform],
+            policies: vec![Policy::Frozen, Policy::Frozen, Policy::Quiet, Policy::Quiet, Policy::Uniform, Policy::Spicy],
             min_len: 120,
             max_len: if thorough { 760 } else { 360 },
             weights: [90, 6, 0, 0, 6, 0, 0, 0, 0],
